@@ -189,6 +189,16 @@ pub proof fn lemma_floor_of_int(k: int)
     assert(j as real <= x < (j + 1) as real);
 }
 
+pub proof fn lemma_is_int_of_int(k: int)
+    ensures is_int(k as real)
+{
+    let x = k as real;
+    let j = x.floor();
+    assert(j as real <= x < (j + 1) as real);
+    assert(j == k);
+    assert(j as real == x);
+}
+
 pub proof fn lemma_is_int_neg(x: real)
     requires is_int(x)
     ensures is_int(-x), (-x).floor() == -(x.floor()), rceil(x) == x.floor(), rtrunc(x) == x.floor(), round_haz(x) == x.floor()
@@ -203,4 +213,31 @@ pub proof fn lemma_is_int_neg(x: real)
     assert(a as real <= x + 0.5real < (a + 1) as real);
     let b = (-x + 0.5real).floor();
     assert(b as real <= -x + 0.5real < (b + 1) as real);
+}
+
+/// 10^s for s >= 0 is a positive integer
+pub open spec fn ipow10(s: nat) -> int
+    decreases s
+{
+    if s == 0 { 1 } else { 10 * ipow10((s - 1) as nat) }
+}
+
+pub proof fn lemma_qpow10_int(s: int)
+    requires s >= 0
+    ensures qpow(10real, s) == ipow10(s as nat) as real, ipow10(s as nat) >= 1
+    decreases s
+{
+    if s > 0 {
+        lemma_qpow10_int(s - 1);
+        let m = ipow10((s - 1) as nat);
+        assert(10real * (m as real) == (10 * m) as real);
+    }
+}
+
+pub proof fn lemma_round_haz_int(k: int)
+    ensures round_haz(k as real) == k
+{
+    lemma_is_int_of_int(k);
+    lemma_floor_of_int(k);
+    lemma_is_int_neg(k as real);
 }
